@@ -31,6 +31,7 @@ class StartupProp(Prop):
         g = ProgGen(rng, **kw)
         case = g.build()
         case["backend"] = self.backends[index % 2]
+        case["outer"] = (index // 2) % 2 == 1      # start_component() called in a context that has a parent
         if rng.random() > g.p_stuck:
             case = make_completable(case, rng, run_reference)
         return case
@@ -100,6 +101,8 @@ class StartupProp(Prop):
         f = {"backend_" + case["backend"], f"nodes_{min(len(prog), 12)}", f"depth_{depth}",
              "outcome_" + impl["outcome"]["k"] + ("_" + impl["outcome"].get("phase", "") if impl["outcome"]["k"] == "cse" else ""),
              "ref_" + impl["ref"]["outcome"]["k"]}
+        if case.get("outer"):
+            f.add("surrounding_context_has_parent")
         if case["timeout"] < 1000:
             f.add("finite_timeout")
         kinds = Counter(e["l"][0] for e in impl["trace"])
@@ -148,6 +151,8 @@ class StartupProp(Prop):
                         yield {**case, "prog": p2}
         if case.get("backend") == "trio":
             yield {**case, "backend": "asyncio"}
+        if case.get("outer"):
+            yield {**case, "outer": False}
 
 
 def lab_key(l: list[Any]) -> tuple[Any, ...]:
@@ -287,6 +292,10 @@ def monitor_startup(case: dict[str, Any], impl: dict[str, Any]) -> list[tuple[st
     if impl.get("labels_during_flush"):
         fails.append(("C07,C05".split(",")[0], f"{impl['labels_during_flush']} start-up events happened after start_component had returned/raised"))
     # ---- ownership: registered callbacks run in reverse order when the surrounding context is left
+    if impl.get("after_left"):
+        tag = "C07" if out["k"] != "returned" else "C05"
+        fails.append((tag, f"still going on after the context start_component() was called in had been left (they ended "
+                           f"only with its parent): {impl['after_left'][:4]}"))
     regs = [l[2] for l in labels if l[0] == "regTd"]
     ran = [l[1] for l in labels if l[0] == "tdRun"]
     if ran != list(reversed(regs)):
